@@ -34,7 +34,7 @@ ASSUMPTIONS = [
     "Constant energy offsets of edge_driver are asserted only for the 3-element reward sets, where the docstring "
     "fixes them (-1/4 vs 3/4 per edge); otherwise only the documented unit gap reward/penalty is asserted.",
 ]
-BUDGET = {"quick": {"examples": 700}, "thorough": {"examples": 16000, "shards": 16}}
+BUDGET = {"quick": {"examples": 500}, "thorough": {"examples": 16000, "shards": 16}}
 SHRINK_LISTS = ("edges",)
 TOL = 1e-9
 
